@@ -671,4 +671,40 @@ structure CacheOK (V : Type) (p : CProg) : Prop where
     (runCache p f s).1 = .ret s.slot ∧ (runCache p f s).2.has = true ∧
       (runCache p f s).2.slot = s.slot ∧ (runCache p f s).2.calls = s.calls
 
+/-! ### a decidable checker of the protocol
+
+The statements of a cache method never inspect a value (they copy it, store it, return it), and never inspect the
+counter.  So whether a program follows the protocol shows on FOUR test reads over the two-valued type `Bool`
+(`false`: "what the slot held before", `true`: "what the formula returns now"), from a cache with and without a
+value, the formula raising or returning: `cacheWF` runs them.  It accepts every arrangement of the statements that
+behaves as the protocol demands (an `else` branch or the statements after a returning `if`, the test negated and
+the branches swapped, a value stored through a local or directly, ...) and nothing else; soundness
+(`Export.cacheOK_of_cacheWF`) is proved once, for all programs. -/
+
+/-- the cache before a test read -/
+def testSt (has : Bool) : CSt Bool := { has := has, slot := some false, tmp := none, calls := 0 }
+
+/-- the read ended as demanded: raised / returned `v`, and left `has`, `slot`, `calls` -/
+def resIs (r : CRes Bool × CSt Bool) (raised : Bool) (v : Option Bool) (has : Bool) (slot : Option Bool)
+    (calls : Nat) : Bool :=
+  (match r.1 with
+   | .raised => raised
+   | .ret x => !raised && x == v
+   | .fell => false) && r.2.has == has && r.2.slot == slot && r.2.calls == calls
+
+def cacheWF (p : CProg) : Bool :=
+  -- no value, the formula raises: the exception, still no value, the slot untouched, one evaluation
+  resIs (runCache p none (testSt false)) true none false (some false) 1 &&
+  -- no value, the formula returns: that value, stored, one evaluation
+  resIs (runCache p (some true) (testSt false)) false (some true) true (some true) 1 &&
+  -- a value: returned unchanged without an evaluation, whatever the formula would do
+  resIs (runCache p none (testSt true)) false (some false) true (some false) 0 &&
+  resIs (runCache p (some true) (testSt true)) false (some false) true (some false) 0
+
+/-- the tokens parse and the program follows the protocol -/
+def cacheTokensWF (toks : List String) : Bool :=
+  match CProg.ofTokens toks with
+  | some p => cacheWF p
+  | none => false
+
 end MxModel.Export
